@@ -143,6 +143,11 @@ def main(argv=None):
     if hasattr(mod, 'weight'):
         jobs.sort(key=lambda j: -mod.weight(j))
     opts = dict(getattr(mod, 'OPTS', {}).get(a.tier, {}))
+    if a.tier == 'thorough' and jobs:
+        # bound the wall time of a thorough run (default 25 min of exploration): every shard gets an equal share of it
+        wall_target = float(os.environ.get('VERIF_THOROUGH_WALL', '1500'))
+        share = wall_target * a.workers / max(len(jobs), a.workers)
+        opts['time_budget'] = max(30.0, min(opts.get('time_budget', share), share))
     args = [(modname, h, list(ha), opts) for h, ha in jobs]
     results = []
     extra = []          # results of non-SX engines (CrossHair / direct queries) run by the check module
